@@ -693,7 +693,7 @@ fn mkcounter() -> Item {
 
 // ================================================================== FA: aggregates
 
-const FA_RADIX: u64 = 18;
+const FA_RADIX: u64 = 21;
 pub fn fa_count(k: u32) -> u64 {
     seq_count(FA_RADIX, k)
 }
@@ -703,6 +703,7 @@ enum ATy {
     T2,
     T3n, // (F,(F,F))
     Rec, // {a,b}
+    RecT, // {a:(F,F), b:F}
 }
 struct ACtx {
     vars: Vec<(String, ATy)>,
@@ -839,6 +840,25 @@ fn fa_stmt(c: &mut ACtx, o: u64) -> Option<()> {
             let s = c.sites.next();
             c.push(v, ATy::T2, call("mt", vec![var(&t)], s), "call mt(tuple) (mem on both)".into());
         }
+        18 => {
+            // record whose first field is a tuple: the following field does not sit at word offset 1
+            let v = c.fresh("r");
+            let e = E::Record(vec![("a".into(), E::Tuple(vec![c.f(0)?, c.f(2)?])), ("b".into(), bin("+", c.f(0)?, num(1000.0)))]);
+            c.push(v, ATy::RecT, e, "record with tuple field first".into());
+        }
+        19 => {
+            let r = c.last(ATy::RecT)?;
+            let v = c.fresh("p");
+            let e = bin("+", E::Field(Box::new(var(&r)), "b".into()), bin("*", E::Proj(Box::new(E::Field(Box::new(var(&r)), "a".into())), 1), num(10.0)));
+            c.push(v, ATy::F, e, "r.b + r.a.1 * 10".into());
+        }
+        20 => {
+            c.need("pick");
+            let r = c.last(ATy::RecT)?;
+            let v = c.fresh("t");
+            let s = c.sites.next();
+            c.push(v, ATy::T2, call("pick", vec![var(&r)], s), "call pick(record with tuple field)".into());
+        }
         _ => unreachable!(),
     }
     Some(())
@@ -859,6 +879,10 @@ pub fn fa_decode(idx: u64, k: u32) -> Option<Gen> {
             Shape::T(vec![Shape::F, Shape::F, Shape::F]),
         ),
         ATy::Rec => (E::Tuple(vec![E::Field(Box::new(var(&name)), "a".into()), E::Field(Box::new(var(&name)), "b".into())]), Shape::T(vec![Shape::F, Shape::F])),
+        ATy::RecT => (
+            E::Tuple(vec![E::Proj(Box::new(E::Field(Box::new(var(&name)), "a".into())), 0), E::Proj(Box::new(E::Field(Box::new(var(&name)), "a".into())), 1), E::Field(Box::new(var(&name)), "b".into())]),
+            Shape::T(vec![Shape::F, Shape::F, Shape::F]),
+        ),
     };
     let mut hs = Sites(0);
     let mut items = vec![];
@@ -869,6 +893,12 @@ pub fn fa_decode(idx: u64, k: u32) -> Option<Gen> {
             "sw" => items.push(fdef("sw", &["t:(float,float)"], E::Tuple(vec![E::Proj(Box::new(var("t")), 1), E::Proj(Box::new(var("t")), 0)]), t2())),
             "cnt2" => items.push(helper("cnt2", &mut hs)),
             "sumrec" => items.push(fdef("sumrec", &["r:{a:float,b:float}"], bin("-", E::Field(Box::new(var("r")), "a".into()), E::Field(Box::new(var("r")), "b".into())), Shape::F)),
+            "pick" => items.push(fdef(
+                "pick",
+                &["r:{a:(float,float), b:float}"],
+                E::Tuple(vec![bin("+", bin("*", E::Proj(Box::new(E::Field(Box::new(var("r")), "a".into())), 0), num(100.0)), E::Proj(Box::new(E::Field(Box::new(var("r")), "a".into())), 1)), E::Field(Box::new(var("r")), "b".into())]),
+                t2(),
+            )),
             "mt" => items.push(fdef(
                 "mt",
                 &["t:(float,float)"],
